@@ -28,6 +28,98 @@ func New(fs absfs.SymlinkFileSystem, options ExportOptions) (*AbsfsNFS, error) {
 		return nil, fmt.Errorf("invalid squash mode %q: must be root, all, or none", options.Squash)
 	}
 
+	// Fill in defaults for everything that was left zero, negative or nil
+	applyExportDefaults(&options)
+
+	// Create server object with configured caches
+	// Initialize structured logger
+	var structuredLogger Logger
+	if options.Log != nil {
+		slogger, err := NewSlogLogger(options.Log)
+		if err != nil {
+			return nil, fmt.Errorf("failed to create logger: %w", err)
+		}
+		structuredLogger = slogger
+	} else {
+		// Use no-op logger when logging is disabled
+		structuredLogger = NewNoopLogger()
+	}
+
+	server := &AbsfsNFS{
+		fs: fs,
+		fileMap: &FileHandleMap{
+			handles:     make(map[uint64]absfs.File),
+			pathHandles: make(map[string]uint64),
+			nextHandle:  1, // Start from 1, as 0 is typically reserved
+			freeHandles: NewUint64MinHeap(),
+		},
+		logger:           log.New(os.Stderr, "[absnfs] ", log.LstdFlags),
+		structuredLogger: structuredLogger,
+		attrCache:        NewAttrCache(options.AttrCacheTimeout, options.AttrCacheSize),
+	}
+
+	// Populate atomic option pointers from the fully-defaulted ExportOptions
+	server.initAtomicOptions(&options)
+
+	// Initialize directory cache if enabled
+	if options.EnableDirCache {
+		server.dirCache = NewDirCache(options.DirCacheTimeout, options.DirCacheMaxEntries, options.DirCacheMaxDirSize)
+	}
+
+	// Configure negative caching
+	server.attrCache.ConfigureNegativeCaching(options.CacheNegativeLookups, options.NegativeCacheTimeout)
+
+	// Initialize and start worker pool
+	server.workerPool = NewWorkerPool(options.MaxWorkers, server)
+	server.workerPool.Start()
+
+	// Initialize metrics collection
+	server.initMetrics()
+
+	// Initialize rate limiter if enabled
+	if options.EnableRateLimiting {
+		server.rateLimiter = NewRateLimiter(*options.RateLimitConfig)
+		server.logger.Printf("Rate limiting enabled (per-IP: %d req/s, global: %d req/s)",
+			options.RateLimitConfig.PerIPRequestsPerSecond,
+			options.RateLimitConfig.GlobalRequestsPerSecond)
+	}
+
+	// Initialize root node
+	root := &NFSNode{
+		SymlinkFileSystem: fs,
+		path:              "/",
+		children:          make(map[string]*NFSNode),
+	}
+
+	info, err := fs.Stat("/")
+	if err != nil {
+		return nil, err
+	}
+
+	modTime := info.ModTime()
+	root.attrs = &NFSAttrs{
+		Mode: info.Mode(),
+		Size: info.Size(),
+		Uid:  0, // Root ownership by default
+		Gid:  0,
+	}
+	root.attrs.SetMtime(modTime)
+	root.attrs.SetAtime(modTime) // Use ModTime as Atime since absfs doesn't expose Atime
+	root.mu.Lock()
+	root.attrs.Refresh() // Initialize cache validity
+	root.mu.Unlock()
+
+	server.root = root
+	return server, nil
+}
+
+// applyExportDefaults fills zero or negative numeric and duration fields and nil
+// pointer fields with the construction-time defaults. It is used by New and by
+// the runtime update paths so that both agree on what "unset" means.
+func applyExportDefaults(optionsPtr *ExportOptions) {
+	options := *optionsPtr
+	defer func() { *optionsPtr = options }()
+
 	// Set default values if not specified
 	if options.TransferSize <= 0 {
 		options.TransferSize = 65536 // Default: 64KB
@@ -140,87 +232,6 @@ func New(fs absfs.SymlinkFileSystem, options ExportOptions) (*AbsfsNFS, error) {
 			options.Timeouts.DefaultTimeout = 30 * time.Second
 		}
 	}
-
-	// Create server object with configured caches
-	// Initialize structured logger
-	var structuredLogger Logger
-	if options.Log != nil {
-		slogger, err := NewSlogLogger(options.Log)
-		if err != nil {
-			return nil, fmt.Errorf("failed to create logger: %w", err)
-		}
-		structuredLogger = slogger
-	} else {
-		// Use no-op logger when logging is disabled
-		structuredLogger = NewNoopLogger()
-	}
-
-	server := &AbsfsNFS{
-		fs: fs,
-		fileMap: &FileHandleMap{
-			handles:     make(map[uint64]absfs.File),
-			pathHandles: make(map[string]uint64),
-			nextHandle:  1, // Start from 1, as 0 is typically reserved
-			freeHandles: NewUint64MinHeap(),
-		},
-		logger:           log.New(os.Stderr, "[absnfs] ", log.LstdFlags),
-		structuredLogger: structuredLogger,
-		attrCache:        NewAttrCache(options.AttrCacheTimeout, options.AttrCacheSize),
-	}
-
-	// Populate atomic option pointers from the fully-defaulted ExportOptions
-	server.initAtomicOptions(&options)
-
-	// Initialize directory cache if enabled
-	if options.EnableDirCache {
-		server.dirCache = NewDirCache(options.DirCacheTimeout, options.DirCacheMaxEntries, options.DirCacheMaxDirSize)
-	}
-
-	// Configure negative caching
-	server.attrCache.ConfigureNegativeCaching(options.CacheNegativeLookups, options.NegativeCacheTimeout)
-
-	// Initialize and start worker pool
-	server.workerPool = NewWorkerPool(options.MaxWorkers, server)
-	server.workerPool.Start()
-
-	// Initialize metrics collection
-	server.initMetrics()
-
-	// Initialize rate limiter if enabled
-	if options.EnableRateLimiting {
-		server.rateLimiter = NewRateLimiter(*options.RateLimitConfig)
-		server.logger.Printf("Rate limiting enabled (per-IP: %d req/s, global: %d req/s)",
-			options.RateLimitConfig.PerIPRequestsPerSecond,
-			options.RateLimitConfig.GlobalRequestsPerSecond)
-	}
-
-	// Initialize root node
-	root := &NFSNode{
-		SymlinkFileSystem: fs,
-		path:              "/",
-		children:          make(map[string]*NFSNode),
-	}
-
-	info, err := fs.Stat("/")
-	if err != nil {
-		return nil, err
-	}
-
-	modTime := info.ModTime()
-	root.attrs = &NFSAttrs{
-		Mode: info.Mode(),
-		Size: info.Size(),
-		Uid:  0, // Root ownership by default
-		Gid:  0,
-	}
-	root.attrs.SetMtime(modTime)
-	root.attrs.SetAtime(modTime) // Use ModTime as Atime since absfs doesn't expose Atime
-	root.mu.Lock()
-	root.attrs.Refresh() // Initialize cache validity
-	root.mu.Unlock()
-
-	server.root = root
-	return server, nil
 }
 
 // ExecuteWithWorker runs a task in the worker pool
@@ -335,6 +346,14 @@ func (n *AbsfsNFS) UpdateExportOptions(newOptions ExportOptions) error {
 		return fmt.Errorf("nil server")
 	}
 
+	// Validate immutable fields before applying anything, so that a rejected
+	// update leaves the whole configuration unchanged. Squash cannot be changed
+	// at runtime.
+	currentPolicy := n.policy.Load()
+	if newOptions.Squash != "" && newOptions.Squash != currentPolicy.Squash {
+		return fmt.Errorf("cannot change Squash mode at runtime (requires restart)")
+	}
+
 	// Apply tuning changes (lock-free, immediate).
 	// Use tuningFromExportOptions for complete field coverage.
 	// Preserve Timeouts and Log from the current snapshot when not provided,
@@ -349,13 +368,6 @@ func (n *AbsfsNFS) UpdateExportOptions(newOptions ExportOptions) error {
 		}
 		*t = *newTuning
 	})
-
-	// Validate immutable fields before attempting policy update.
-	// Squash cannot be changed at runtime.
-	currentPolicy := n.policy.Load()
-	if newOptions.Squash != "" && newOptions.Squash != currentPolicy.Squash {
-		return fmt.Errorf("cannot change Squash mode at runtime (requires restart)")
-	}
 
 	// Apply policy changes (drain-and-swap)
 	newPolicy := PolicyOptions{
